@@ -277,6 +277,26 @@ def o194(ctx):
             if "geom4" not in chain.written or dist is None or not tm.has_sym(dist, "current_dist"):
                 ctx.finding(q, label, f"{label}: the distance of the new link must be recorded on the last particle of the chain that is put in "
                             "front (on every merging path)", fn, m)
+            # the order numbers of the old chain are shifted while its rows still carry the number they are selected by: a shift that comes after the
+            # re-labelling (`object_id == old number` evaluated on the re-labelled column) selects no row, and the chain put behind keeps 1, 2, 3 ...
+            ev_ = [e for e in it.events if e.kind == "store" and e.name == "columns" and e.fn == q and e.extra.get("frame") is traced]
+            shifts = [(i_, e) for i_, e in enumerate(ev_) if e.extra.get("names") == ["geom2"] and e.extra.get("mask") is not None]
+            ctx.count(1, {"path": label, "order-number shifts": len(shifts)})
+            for i_, e in shifts:
+                mk_ = e.extra["mask"]
+                olds = [n.args[1] for n in tm.walk(mk_) if n.op == "eq" and n.args[1].op == "call" and n.args[1].args[0] == "elem"
+                        and tm.has_sym(n.args[1], "tr:object_id")]
+                for j_, e2 in enumerate(ev_[:i_]):
+                    if e2.extra.get("names") != ["object_id"] or e2.extra.get("mask") is None:
+                        continue
+                    v2 = to_term(e2.args[2])
+                    m2_ = e2.extra["mask"]
+                    whole = not any(c_.op in ("lt", "le") for c_ in tm.walk(m2_) if c_.op in ("lt", "le") and c_.args[0] == sym("tr:geom2")) or j_ > 0
+                    if olds and tm.cval(v2) is None and whole and tm.contains(mk_, lambda n, v2=v2: n == v2):
+                        ctx.finding(q, e.node, f"{label}: the order numbers of the chain that is put behind are shifted (`{norm_text(e.node)[:70]}`) after its rows were "
+                                    f"re-labelled (`{norm_text(e2.node)[:70]}`): the selection by the old object number then matches no row, the chain keeps its "
+                                    "order numbers 1, 2, ... and the merged object carries every one of them twice", e.node, m)
+                        break
             if cm_none:
                 # object numbers after a plain prefix: the new chain and the part of the old chain it is put in front of carry ONE number, and a
                 # head that is cut off the old chain (closest particle not its first) carries ANOTHER one
@@ -967,4 +987,4 @@ def _obligations():
 
 
 def obligations():
-    return _obligations() + [constructors_obligation(['cryomotl.Motl', 'cryomotl.EmMotl']), labels_obligation("C19"), selectors_obligation("C19"), mutations_obligation("C19"), effects_obligation("C19"), plumbing_obligation("C19"), overrides_obligation("C19"), options_obligation("C19"), handlers_obligation("C19")]
+    return _obligations() + [constructors_obligation(['cryomotl.Motl', 'cryomotl.EmMotl']), labels_obligation("C19"), selectors_obligation("C19"), mutations_obligation("C19"), loopstate_obligation("C19"), effects_obligation("C19"), plumbing_obligation("C19"), overrides_obligation("C19"), options_obligation("C19"), handlers_obligation("C19")]
